@@ -35,6 +35,7 @@ type failure struct{ kind, detail string }
 type result struct {
 	rpc, scen, corr string
 	peer            types.PrivateKey // transport identity of the host side; nil: the contract's host key
+	observe         bool             // a panic is recorded as an observation, the case is not sent to the model
 	panicked        bool
 	ok              bool
 	errStr          string
@@ -43,6 +44,8 @@ type result struct {
 	fails           []failure
 	x               *xchg
 	extra           map[string]any
+	rev             *types.V2FileContract // revising RPCs: the revision returned on success
+	secs            []types.Hash256       // append: the sectors returned on success
 }
 
 func (r *result) name() string { return r.rpc + "/" + r.scen + "/" + r.corr }
@@ -66,10 +69,15 @@ func (w *world) do(r *result, handler func(net.Conn, *xchg), call func(context.C
 	}
 	x, p, hung := w.exchange(peer, handler, call)
 	r.x = x
+	if w.sess != nil {
+		w.last[r.rpc] = x.Sent
+	}
 	if p != nil || hung {
 		r.panicked = true
 	}
-	if p != nil {
+	if p != nil && r.observe {
+		r.extra = map[string]any{"observed-panic": fmt.Sprint(p)}
+	} else if p != nil {
 		r.fail("renter-panics-on-"+r.rpc+"-response", "the RPC function panicked instead of returning an error: %v", p)
 	}
 	if hung {
@@ -211,31 +219,40 @@ func runC10(c *hx.Ctx) {
 		w := newWorld(rng.New(seed + uint64(wi)*1000003))
 		cat := w.catalogue(c.Thorough)
 		total += len(cat)
-		for _, tc := range cat {
-			name := tc.rpc + "/" + tc.scen + "/" + tc.corr
-			if wi > 0 {
-				name = fmt.Sprintf("world%d:%s", wi, name)
-			}
-			if only != "" && name != only {
-				continue
-			}
-			t0 := time.Now()
-			r := tc.run()
-			spent[tc.rpc] += time.Since(t0)
-			if d := time.Since(t0); d > time.Second {
+		record := func(name, rpc, scen, corrName string, r *result, d time.Duration) {
+			spent[rpc] += d
+			if d > time.Second {
 				res.Notes = append(res.Notes, fmt.Sprintf("slow case %s: %v (client ok=%v err=%q) host notes %v", name, d, r.ok, r.errStr, r.x.Notes))
 			}
 			if r.panicked { // neither Ok nor Err: no outcome of the model matches
 				r.coq = strings.Replace(r.coq, " OErr", " OPanic", 1)
 			}
-			cases = append(cases, "("+r.coq+")")
+			if !r.observe {
+				cases = append(cases, "("+r.coq+")")
+			}
 			res.Eval(name, r.nontrivial)
-			res.Count("rpc:" + tc.rpc)
-			res.Count("corruption-class:" + corrClass(tc.corr))
+			res.Count("rpc:" + rpc)
+			res.Count("corruption-class:" + corrClass(corrName))
+			for _, d := range dims(scen, corrName) {
+				res.Count("dim:" + d)
+			}
+			if strings.Contains(scen, "history/") || strings.Contains(scen, "concurrent/") {
+				switch {
+				case corrName == "honest" && r.ok:
+					res.Count("dim:history+interleaving:honest-step-succeeded")
+				case corrName == "honest":
+					res.Count("dim:history+interleaving:honest-step-FAILED")
+					res.Notes = append(res.Notes, "honest step failed: "+name+": "+r.errStr)
+				case r.ok:
+					res.Count("dim:history+interleaving:corrupted-step-accepted-binding-holds")
+				default:
+					res.Count("dim:history+interleaving:corrupted-step-refused")
+				}
+			}
 			if r.ok {
 				res.Count("outcome:ok")
-				okBy[tc.rpc]++
-				if !strings.HasSuffix(tc.corr, "honest") {
+				okBy[rpc]++
+				if !strings.HasSuffix(corrName, "honest") {
 					res.Count("outcome:ok-on-corrupted-response-binding-holds")
 					if os.Getenv("C10_LIST_OK") != "" {
 						res.Notes = append(res.Notes, "ok: "+name)
@@ -247,18 +264,58 @@ func runC10(c *hx.Ctx) {
 			if _, ok := r.extra["observation2"]; ok {
 				res.Count("observe:renewal-set-with-foreign-renewal-returned")
 			}
-			if o, ok := r.extra["observation"]; ok {
+			if _, ok := r.extra["observation"]; ok {
 				res.Count("observe:latest-revision-with-invalid-host-signature-returned")
-				_ = o
+			}
+			if _, ok := r.extra["observed-panic"]; ok {
+				res.Count("observe:renter-panics-on-overflowing-price-table")
 			}
 			for _, f := range r.fails {
 				res.Fail(f.kind, name+": "+f.detail, map[string]any{
-					"case": name, "seed": seed, "rpc": tc.rpc, "scenario": tc.scen, "corruption": tc.corr,
+					"case": name, "seed": seed, "rpc": rpc, "scenario": scen, "corruption": corrName,
 					"client_error": r.errStr, "client_ok": r.ok, "exchange": r.x, "extra": r.extra, "coq_case": r.coq,
 				})
 			}
 			if len(res.Samples) < 5 && r.nontrivial && (len(cases)%97 == 1) {
 				res.Sample(map[string]any{"case": name, "client_ok": r.ok, "client_error": r.errStr, "coq_case": r.coq})
+			}
+		}
+		prefix := ""
+		if wi > 0 {
+			prefix = fmt.Sprintf("world%d:", wi)
+		}
+		for _, tc := range cat {
+			name := prefix + tc.rpc + "/" + tc.scen + "/" + tc.corr
+			if only != "" && name != only {
+				continue
+			}
+			t0 := time.Now()
+			r := tc.run()
+			record(name, tc.rpc, tc.scen, tc.corr, r, time.Since(t0))
+		}
+		// history: many calls on one long-lived transport, objects reused, revisions threaded,
+		// the host replaying its previous answers (a replay re-runs the whole session)
+		if only == "" || strings.Contains(only, "/history/") {
+			w.sess = w.openSession(w.hk)
+			hc := w.historyCases()
+			total += len(hc)
+			for _, tc := range hc {
+				t0 := time.Now()
+				r := tc.run()
+				record(prefix+tc.rpc+"/"+tc.scen+"/"+tc.corr, tc.rpc, tc.scen, tc.corr, r, time.Since(t0))
+			}
+			w.sess.close()
+			w.sess = nil
+		}
+		// interleaving: two calls in flight on one transport, answered in either order
+		if only == "" || strings.Contains(only, "/concurrent/") {
+			for _, hf := range []bool{true, false} {
+				t0 := time.Now()
+				rs := w.concurrentReads(hf)
+				total += len(rs)
+				for _, r := range rs {
+					record(prefix+r.rpc+"/"+r.scen+"/"+r.corr, r.rpc, r.scen, r.corr, r, time.Since(t0)/2)
+				}
 			}
 		}
 		w.l.Close()
@@ -299,4 +356,44 @@ func corrClass(name string) string {
 		return "error-framing"
 	}
 	return "lengths-counts-values"
+}
+
+// dims names the generator dimensions a case belongs to (evidence counters dim:*).
+func dims(scen, corrName string) (d []string) {
+	has := func(sub string) bool { return strings.Contains(scen, sub) }
+	switch {
+	case has("history/"):
+		d = append(d, "history:calls-on-one-transport")
+		if corrName == "replay-of-previous-exchange" {
+			d = append(d, "history:previous-exchange-replayed")
+		}
+		if has("chain-") {
+			d = append(d, "history:revision-threaded-through-calls")
+		}
+	case has("concurrent/"):
+		d = append(d, "interleaving:two-calls-in-flight/"+strings.TrimPrefix(scen, "concurrent/"))
+	case has("illegal-answered/"):
+		d = append(d, "illegal-request-answered")
+	case has("invalid-"):
+		d = append(d, "illegal-request-rejected-or-local")
+	case has("truncation/"):
+		d = append(d, "stream-truncation-point")
+	case has("prices-"):
+		d = append(d, "price-spread:"+scen[strings.Index(scen, "prices-"):])
+	case has("funds-") || has("insufficient-funds") || has("exactly-all-funds"):
+		d = append(d, "funds-at-boundary")
+	case has("batch-"):
+		d = append(d, "batch-limit:"+scen)
+	case has("sectors-1"):
+		d = append(d, "contract-size-around-full-subtree")
+	case has("foreign-peer"):
+		d = append(d, "transport-key-differs-from-contract-key")
+	}
+	if strings.HasPrefix(corrName, "upload-abort/") {
+		d = append(d, "abort-inside-renter-upload")
+	}
+	if strings.Contains(corrName, "truncated") {
+		d = append(d, "abort-inside-response-message")
+	}
+	return
 }
